@@ -8,6 +8,7 @@ Streams of C18.
       innerhdr = ce|cl|vary|etag   ce hex; cl - or a number; vary 0/1; etag -|s|w
       body     = term: r<hex> | E<status> | gzip(<term>) | zstd(<term>) | br(<term>)
       ops      = comma list of  h<code> | w | f
+      ret      = <status> (the handler returns status, nil) | <status>e (status and a non-nil error)
       out      = <resp with gzip> TAB <resp without>;  resp = status ce cl vary etag term
                  (ce hex or -, cl - absent / = correct / ! wrong)
   c18.static  blocks  path  ae  siblings  content  plens
@@ -44,6 +45,7 @@ def showTerm : Term → String
   | .raw b => "r" ++ Driver.hex b
   | .errPage s => "E" ++ toString s
   | .layer c t => codingStr c ++ "(" ++ showTerm t ++ ")"
+  | .cut c _ => "X-truncated-" ++ codingStr c ++ "-"
 
 def parseTermFuel : Nat → String → Option Term
   | 0, _ => none
@@ -121,11 +123,18 @@ structure WCase where
   ae : Bytes
   inner : Inner
 
+/-- the ret field: `<status>` = the handler returns (status, nil); `<status>e` = it returns
+(status, a non-nil error) -/
+def parseRet (s : String) : Option (Nat × Bool) :=
+  if s.endsWith "e" then ((s.dropEnd 1).toString.toNat?).map fun n => (n, true)
+  else (s.toNat?).map fun n => (n, false)
+
 def parseWrap : List String → Option WCase
   | [bl, p, ae, h, body, plen, ops, ret] => do
+    let (ret, err) ← parseRet ret
     pure { blocks := ← parseBlocks bl, path := ← Driver.unhex p, ae := ← Driver.unhex ae,
            inner := { hdr := ← parseHdr h, body := ← parseTerm body, plen := ← plen.toNat?,
-                      ops := ← parseOps ops, ret := ← ret.toNat? } }
+                      ops := ← parseOps ops, ret := ret, err := err } }
   | _ => none
 
 def wrapModel (f : List String) : String :=
